@@ -170,3 +170,14 @@ check("C09",
       "Trusted: z3; derivative rules of exp/erf/E1; exp/erf/E1/sqrt axioms; pi in (3.14159, 3.1416); the FTC meta-step. Outside: CGMY, all quad fallbacks "
       "(n >= 3 for HEM/Merton), odd-moment signs. Attempted, not claimed: Merton second moment on [a, inf) (solver unknown).",
       "symbolic forward-mode AD of the real python functions + SMT (z3, cvc5 fallback) on cross-multiplied polynomial identities in UF terms", "DESIGN.md section 3 C09")
+
+check("C10",
+      "Symbolic Taylor-jet execution (order 4/6) of the real levy_exponent_pure_jump of HEM, Merton, VG and CGMY with all parameters symbolic: the stated "
+      "cumulants 1, 2, 4, 6 equal t times the derivatives of the exponent at 0; for HEM and Merton the first/second derivatives equal the model's own "
+      "closed-form moment integrals over the whole line with the declared representation's compensator; real LevyTriplet.set_representation on abstract "
+      "moments for every sequence of representations (path-independent, reversible); martingale routes: omega = -kappa(1), model drift = r - d + omega, "
+      "characteristic function at -i real and equal to S0 exp((r-d)t), direct-simulation drift + sigma^2/2 + phi(1) = r - d (BS, HEM, Merton).",
+      "Trusted: z3; series coefficients of exp/log/pow; Gamma(s+k) and x^(a+k) functional equations; exp/log axioms; abstract measure for the "
+      "representation conversions. Outside: exponent = Lévy-Khintchine integral beyond its Taylor data at 0, CGMY y in {0,1}, CGMY/VG first-moment link; "
+      "Markov-chain drift route is C04.",
+      "symbolic Taylor-jet / complex execution of the real python functions + SMT (z3, cvc5 fallback) on cross-multiplied polynomial identities", "DESIGN.md section 3 C10")
